@@ -33,7 +33,7 @@ REAL_VS_STUB = {
                  "kernel boundary of the file system (interposed open/read/write/close/stat/"
                  "scandir/mkdir/unlink/rename on a real tmpfs directory)",
                  "loky / process pools (SimExecutor decides start and completion order)",
-                 "clock (time.sleep is simulated)"],
+                 "clock (time.sleep is simulated; file times returned by os.stat are simulated event times)"],
     },
 }
 
@@ -65,8 +65,10 @@ PROPS = {
         "technique": "deterministic simulation: seeded sow/grow/reap histories over a real crop directory with "
                      "interposed file I/O, simulated process boundaries and a simulated worker pool; reference-model oracle",
         "level_text": "Seeded exploration of generated sweeps x batching x shuffle x grow histories (order, grouping, "
-                      "repetition, parallel completion order, fresh-process reloads); every reaped position is "
-                      "compared with an independent reference. Evidence, not proof: the space is sampled.",
+                      "repetition, parallel completion order, fresh-process reloads, and phases in which 2-3 worker "
+                      "processes grow distinct / overlapping / the same batches at once under the seeded scheduler); "
+                      "every reaped position is compared with an independent reference and no worker may fail. "
+                      "Evidence, not proof: the space is sampled.",
         "level_note": "Trusts: the harness reference (itertools.product + injective value function), actors == "
                       "processes (no shared xyzpy objects unless the scenario keeps the object), loky replaced by SimExecutor.",
         "evidence": {
@@ -74,7 +76,7 @@ PROPS = {
                     "batching (size/count, at constructor or sow), shuffle (value and site), sow API "
                     "and spelling, then a tape-chosen history of grow operations (grow(), Crop.grow "
                     "subsets/permutations, grow_missing, num_workers via SimExecutor, repeats, fresh "
-                    "or reused Crop object) and a final reap compared position by position with the "
+                    "or reused Crop object, 1 in 6 a concurrent phase of 2-3 growers) and a final reap compared position by position with the "
                     "harness's own reference. non-trivial = more than one batch and at least one "
                     "grow operation; distinct = distinct (N, batches, batching, shuffle, api, kind, "
                     "grow-op sequence).",
@@ -84,8 +86,9 @@ PROPS = {
         "workload": "c08", "level": "exploration",
         "quick": 5000, "thorough": 100000,
         "technique": "deterministic simulation: seeded operation histories (sow, re-sow, grows, failing function, "
-                     "external deletion/corruption, check_bad, reload) against a finished-set reference model, "
-                     "progress queried after every step by a fresh simulated process and the kept object",
+                     "external deletion/corruption, check_bad, reload, "
+                     "disk-full during a grow) against a finished-set reference model; progress queried after most "
+                     "steps (1 in 3 are left unobserved) by a fresh simulated process and by the kept object",
         "level_text": "Seeded exploration of operation histories up to length 12 on crops of 1-8 batches; after every "
                       "operation all four progress queries and str(crop) are compared with a model that marks a batch "
                       "finished iff a grow ran all of its settings to a normal return; each grow's directory diff "
@@ -97,7 +100,8 @@ PROPS = {
             "rule": "each run draws a sweep and batching (1-8 batches) and then up to 12 operations from {grow one / "
                     "subset / missing (optionally num_workers), poison or un-poison a setting, re-sow same arguments "
                     "(same or new object), delete a result, corrupt a result then check_bad, check_bad on a healthy "
-                    "crop, reload}; progress is queried after every operation. non-trivial = at least 2 batches and 2 "
+                    "crop, reload}; progress is queried after an operation with probability 2/3 (so that several changes can lie between "
+                    "two queries of the kept object) and always at the end. non-trivial = at least 2 batches and 2 "
                     "operations; distinct = distinct (batches, operation sequence with arguments).",
         },
     },
@@ -145,13 +149,15 @@ PROPS = {
     },
     "C12": {
         "workload": "c12", "level": "fault_enumeration",
-        "quick": 1632, "thorough": 40800,
+        "quick": 2016, "thorough": 50400,
         "technique": "deterministic simulation with fault enumeration: every cell of clean_up x allow_incomplete x wait "
-                     "x farmer kind x failure stage (204 applicable cells, taken in turn by run index) on seeded "
+                     "x farmer kind x failure stage (252 applicable cells, taken in turn by run index) on seeded "
                      "scenarios, injected failure (missing batches, torn result, wrong output description, merge "
-                     "conflict, ENOSPC on the data-file write), byte-level directory comparison, corrected retry",
+                     "conflict, ENOSPC on the data-file write, transient EIO on a result read), byte-level comparison "
+                     "of the crop directory and the data file, corrected retry (by a new process or on the very object "
+                     "whose reap failed)",
         "level_text": "The finite product of reap options, farmer kinds and failure stages is enumerated (run index "
-                      "modulo 204; quick = 8 seeded scenarios per cell, thorough = 200); wait on an incomplete crop is "
+                      "modulo 252; quick = 8 seeded scenarios per cell, thorough = 200); wait on an incomplete crop is "
                       "paired with a late grower under the seeded scheduler. A failing reap must leave the crop "
                       "byte-identical and a corrected retry must deliver the reference; a successful reap must follow the "
                       "documented clean-up rule and, for harvester/sampler crops, must not unlink anything under the "
@@ -159,11 +165,11 @@ PROPS = {
         "level_note": "Scenarios per cell are sampled. The save error is ENOSPC on the first kernel write into the "
                       "data file or its temporary sibling. Data names carry their extension here (C05 covers names).",
         "evidence": {
-            "rule": "run i executes cell (i mod 204) of the option x farmer x failure-stage product on a scenario drawn "
+            "rule": "run i executes cell (i mod 252) of the option x farmer x failure-stage product on a scenario drawn "
                     "from its own seed (sweep, batching <= 4 batches, shuffle, result kind, storage engine, earlier data "
                     "on disk); non-trivial = every run (each injects its cell's failure or checks the clean-up rule); "
                     "distinct = distinct (cell, N, batches, kind, finished set).",
-            "cells_total": 204,
+            "cells_total": 252,
         },
     },
     "C10": {
@@ -175,7 +181,9 @@ PROPS = {
                      "its interposed file operations and then re-run from a snapshot with a kill before every one of "
                      "them (partial kernel writes and small userspace buffers give torn prefixes); after each kill: "
                      "plain-reap probe, documented recovery by fresh simulated processes with an optional second "
-                     "kill, comparison with the reference and with the data that was on disk before",
+                     "kill, comparison with the reference and with the data that was on disk before; one scenario in "
+                     "four enumerates a full disk (ENOSPC at each kernel write) instead of kills, and there the "
+                     "failed call may be repeated in the same session on the very object that failed",
         "level_text": "Within each seeded scenario every crash site of the victim phase is enumerated (all K <= 150 "
                       "operation boundaries, else 150 evenly spaced ones); scenarios, write splits, listing order, "
                       "and the second crash (step and site) are seeded. After each crash a plain reap must refuse or "
@@ -202,7 +210,8 @@ PROPS = {
         "technique": "deterministic simulation of the worker pool: combo_runner driven through SimExecutor "
                      "(submit / apply_async / multiprocessing.Pool flavours, thread or process boundary) whose start "
                      "and completion order the seeded tape decides; call-log and reference-model oracles",
-        "level_text": "Seeded exploration over grids (1-5 arguments, 1-4 values, int/float/str, three spellings, "
+        "level_text": "Seeded exploration over grids (1-5 arguments, 1-4 values - the whole quantified range, up to 1024 "
+                      "settings - int/float/str, three spellings, "
                       "optional case lists), constants, result kinds, split/flat, and 2-4 execution strategies per grid "
                       "(sequential, shuffle seeds, parallel=True/int, num_workers, every executor flavour) under "
                       "tape-chosen start/completion orders (FIFO window of 1-4 workers, or unordered). The call log "
@@ -248,7 +257,9 @@ PROPS = {
                       "runner constants, resources, batch sizes, engines pickle and csv, list and generator choices, "
                       "fresh Sampler objects between runs. After every run the table read by a fresh process has "
                       "grown by exactly n, its earlier rows are unchanged, every new row's arguments are allowed "
-                      "and its outputs are the function's value at exactly those arguments, and it equals full_df.",
+                      "and its outputs are the function's value at exactly those arguments, runner constants and the "
+                      "per-run constants of direct runs are recorded as columns, and the table equals full_df. One crop "
+                      "run in four uses 6-14 samples (two-digit batch numbers).",
         "level_note": "csv tables are compared to 1e-12 relative (pandas' default float parser is not round-trip "
                       "exact). Row identity within a run is not checked (draws are random), only row correctness.",
         "evidence": {
@@ -285,15 +296,20 @@ PROPS = {
         "shrink_execs": 40, "shrink_wall": 240,
         "technique": "deterministic simulation of the cluster scheduler only: generated SGE/PBS/SLURM scripts are "
                      "checked with bash -n and executed as real bash/python child processes, one per array index, in "
-                     "a seeded order with duplicated and pre-empted-then-requeued tasks; the xyzpy-grow CLI likewise; "
+                     "a seeded order with duplicated, pre-empted-before-start and pre-empted-while-running tasks (the "
+                     "job's whole process group is killed at the instant it starts evaluating a tape-chosen setting), "
+                     "all re-queued; single-mode jobs and the xyzpy-grow CLI likewise; "
                      "call-log, directory-diff and reference-model oracles",
         "level_text": "Seeded exploration over scheduler x mode (array / single / CLI) x crop state (no results, some "
                       "results, explicit batch_ids of length 1..B) x resource-option spellings x crops of 1-8 batches. "
                       "Every script must pass bash -n, every child must finish without a Python or shell error, each "
                       "array task must write exactly its batch's result and evaluate exactly its settings, the header "
                       "range must have exactly len(ids) tasks, and afterwards progress must be exact and the reap equal "
-                      "to the reference. Weakest fit for the technique: children are real processes run one at a time, "
-                      "no fault is injected inside a child (C10/C11 cover kills and interleavings of grow itself).",
+                      "to the reference. A job killed while running must not have published a result for the batch it "
+                      "was in, progress must still list that batch as missing, and the re-submitted job must finish the "
+                      "work. Weakest fit for the technique: children are real processes run one at a time; the only "
+                      "fault inside a child is that kill (C10/C11 cover kills at every file operation and "
+                      "interleavings of grow itself).",
         "level_note": "Stubbed: the scheduler (qsub/sbatch), conda activation (conda_env=False), launcher = the venv "
                       "python. Real: bash, python, xyzpy, loky when num_workers is given.",
         "evidence": {
